@@ -330,6 +330,12 @@ impl NestedTrieDawg {
 
     /// Insert a single key into the trie structure
     fn insert_key(&mut self, key: &[u8]) -> Result<()> {
+        // A DAWG that was never built (or was cleared) has no root state yet;
+        // without one the first new state would get the root's id
+        if self.states.is_empty() {
+            self.root_state = self.add_state(0, false, false)?;
+        }
+
         let mut current_state = self.root_state;
 
         // Traverse/create path for the key
